@@ -8,6 +8,8 @@ verus! {
 //@include asref.rs
 //@item src/lib.rs struct Match
 //@include ghost_iter_bw.rs
+//@include parts/bw_iter_structs.tpl
+//@include ghost_iter_bw2.rs
 //@include parts/bw_iter.tpl
 } // verus!
 fn main() {}
